@@ -18,16 +18,17 @@ import (
 // compared with the prefix oracle.
 
 type crashCase struct {
-	Property string         `json:"property"`
-	Kind     string         `json:"kind"`
-	Opt      kvh.Opt        `json:"options"`
-	Ops      []kvh.Op       `json:"ops"`
-	SelSeed  uint64         `json:"selSeed"`
-	SelPct   int            `json:"selPct"` // percentage of events frozen (100 = all)
-	Reader   *kvh.Opt       `json:"reader,omitempty"`
-	MaxCuts  int            `json:"maxCuts"`
-	Only     *kvh.CrashSpec `json:"crash,omitempty"` // replay: just this image
-	Note     string         `json:"note,omitempty"`
+	Property    string         `json:"property"`
+	Kind        string         `json:"kind"`
+	Opt         kvh.Opt        `json:"options"`
+	Ops         []kvh.Op       `json:"ops"`
+	SelSeed     uint64         `json:"selSeed"`
+	SelPct      int            `json:"selPct"` // percentage of events frozen (100 = all)
+	Reader      *kvh.Opt       `json:"reader,omitempty"`
+	MaxCuts     int            `json:"maxCuts"`
+	NoPowerLoss bool           `json:"noPowerLoss,omitempty"`
+	Only        *kvh.CrashSpec `json:"crash,omitempty"` // replay: just this image
+	Note        string         `json:"note,omitempty"`
 }
 
 type mutExtent struct {
@@ -36,10 +37,10 @@ type mutExtent struct {
 }
 
 type crashStats struct {
-	instants, images, nontrivial int
-	labels                       map[string]int
-	hashes                       []uint64
-	sample                       map[string]any
+	instants, images, nontrivial, nested int
+	labels                               map[string]int
+	hashes                               []uint64
+	sample                               map[string]any
 }
 
 type crashExec struct {
@@ -64,6 +65,9 @@ type crashExec struct {
 	failSpec  *kvh.CrashSpec
 	// C04: the op index of the batch under observation and whether a Sync batch's durability is asserted
 	materialiseKeepPhysical bool
+	nestedDepth             int // how many levels of crash-during-recovery are enumerated (0 = none)
+	nestedMax               int // cap of nested instants per Open (0 = all)
+	uniq                    int
 	afterStep               func(x *crashExec, op *kvh.Op, mutated bool) *kvh.Fail
 	nonTrivial              func(x *crashExec, inst *kvh.Instant, cuts map[string]int64) bool
 	onVerify                func(x *crashExec, inst *kvh.Instant, cuts map[string]int64, dump map[string][]byte, j int) *kvh.Fail
@@ -125,7 +129,11 @@ func (x *crashExec) freeze(ev kvh.Event) {
 }
 
 func (x *crashExec) onEvent(ev kvh.Event) {
-	if !strings.HasPrefix(ev.Path, x.r.Base+"/") || strings.HasPrefix(ev.Path, x.imgRoot+"/") {
+	if ev.Kind == "point" {
+		if !x.inflight || x.opKind != "merge" || !strings.HasPrefix(ev.Name, "merge.") {
+			return
+		}
+	} else if !strings.HasPrefix(ev.Path, x.r.Base+"/") || strings.HasPrefix(ev.Path, x.imgRoot+"/") {
 		return
 	}
 	x.eventN++
@@ -142,7 +150,7 @@ func (x *crashExec) onEvent(ev kvh.Event) {
 // cutVectors generates the power-loss cut vectors of an instant.
 func (x *crashExec) cutVectors(inst *kvh.Instant) []map[string]int64 {
 	uns := inst.Unsynced()
-	if len(uns) == 0 {
+	if len(uns) == 0 || x.c.NoPowerLoss {
 		return nil
 	}
 	if x.c.Only != nil {
@@ -256,13 +264,24 @@ func (x *crashExec) verify(inst *kvh.Instant, upper int) {
 		spec := &kvh.CrashSpec{Event: inst.Event.Seq, Cuts: v.cuts}
 		where := fmt.Sprintf("%s image at event %d (before %s %s n=%d, during op %d %s, in flight %v, acknowledged %d, durable %d, cuts %v)",
 			v.kind, inst.Event.Seq, inst.Event.Kind, relTo(x.r.Base, inst.Event.Path), inst.Event.N, inst.OpIndex, inst.OpKind, inst.InFlight, inst.Acked, inst.Durable, v.cuts)
-		var db, dump, f = kvh.OpenImage(img, reader)
+		var nested []*kvh.Instant
+		var db, dump, f = x.openArmed(img, reader, 1, &nested)
 		if f != nil {
 			f.Msg = where + ": " + f.Msg
 			x.fail, x.failSpec = f, spec
+			dropAll(nested)
 			return
 		}
 		d := kvh.StateDigest(dump)
+		if len(nested) > 0 {
+			// crash during this recovery/adoption: every such image must recover to the same mapping
+			if f, path := x.verifyNested(nested, reader, d, dump, 1, where); f != nil {
+				_ = db.Close()
+				x.fail = f
+				x.failSpec = &kvh.CrashSpec{Event: inst.Event.Seq, Cuts: v.cuts, Level: path}
+				return
+			}
+		}
 		match := -1
 		for j := v.lower; j <= upper && j < len(x.states); j++ {
 			if x.states[j] == d {
@@ -418,7 +437,10 @@ func newCrashExec(c *crashCase, st *kvh.Stats, setup func(x *crashExec)) (*crash
 	if f != nil {
 		return nil, f
 	}
-	x := &crashExec{c: c, r: r, st: st, cs: cs}
+	x := &crashExec{c: c, r: r, st: st, cs: cs, nestedDepth: 1}
+	if !kvh.GetEnv().Thorough() {
+		x.nestedMax = 2
+	}
 	x.imgRoot = filepath.Join(r.Base, "images")
 	_ = os.MkdirAll(x.imgRoot, 0o755)
 	x.states = []uint64{kvh.StateDigest(r.Model)}
@@ -500,6 +522,7 @@ func (x *crashExec) flushStats(nonTrivialWorkload bool) {
 	st.ExtraAdd("workloads", 1)
 	st.ExtraAdd("crash_instants", int64(x.cs.instants))
 	st.ExtraAdd("images_opened", int64(x.cs.images))
+	st.ExtraAdd("images_of_crashes_during_recovery", int64(x.cs.nested))
 	for k, n := range x.cs.labels {
 		st.LabelN(k, int64(n))
 	}
@@ -515,4 +538,115 @@ func (x *crashExec) flushStats(nonTrivialWorkload bool) {
 			st.Sample(nil)
 		}
 	}
+}
+
+func dropAll(insts []*kvh.Instant) {
+	for _, i := range insts {
+		i.Drop()
+	}
+}
+
+// openArmed opens an image with the hooks armed so that the state-changing
+// operations of this very Open (merge adoption: remove/rename/remove-all; file
+// creation; truncation of an incomplete tail) become crash instants of the
+// next level.
+func (x *crashExec) openArmed(img string, reader kvh.Opt, level int, out *[]*kvh.Instant) (dbOut dbHandle, dump map[string][]byte, fail *kvh.Fail) {
+	if level > x.nestedDepth {
+		db, dump, f := kvh.OpenImage(img, reader)
+		return db, dump, f
+	}
+	prev := gIO.OnEvent
+	n := 0
+	gIO.OnEvent = func(ev kvh.Event) {
+		if !strings.HasPrefix(ev.Path, img+"/") {
+			return
+		}
+		n++
+		interesting := false
+		switch ev.Kind {
+		case "remove", "rename", "removeall", "mkdir", "truncate":
+			interesting = true
+		case "open":
+			if _, err := os.Stat(ev.Path); err != nil {
+				interesting = true // creates the file
+			}
+		}
+		if !interesting {
+			return
+		}
+		if x.c.Only != nil {
+			if len(x.c.Only.Level) < level || x.c.Only.Level[level-1] != n {
+				return
+			}
+		} else if level >= 2 && x.nestedMax > 0 && len(*out) >= x.nestedMax {
+			return // quick tier: the retry level is sampled
+		}
+		x.uniq++
+		inst, err := kvh.CaptureInstant(gIO, img, x.imgRoot, 100000+x.uniq)
+		if err != nil {
+			return
+		}
+		inst.Event = ev
+		inst.Event.Seq = n
+		*out = append(*out, inst)
+	}
+	db, dump, f := kvh.OpenImage(img, reader)
+	gIO.OnEvent = prev
+	return db, dump, f
+}
+
+type dbHandle = interface {
+	Close() error
+	Put(key, value []byte) error
+}
+
+// verifyNested checks the images of crashes during a recovery Open.
+func (x *crashExec) verifyNested(insts []*kvh.Instant, reader kvh.Opt, want uint64, wantDump map[string][]byte, level int, where string) (*kvh.Fail, []int) {
+	defer dropAll(insts)
+	for _, inst := range insts {
+		img := filepath.Join(x.imgRoot, fmt.Sprintf("img-l%d", level+1))
+		_ = os.RemoveAll(img)
+		if err := inst.Materialise(img, nil, false); err != nil {
+			return &kvh.Fail{Sig: "harness-materialise", Msg: err.Error()}, nil
+		}
+		x.cs.images++
+		w := fmt.Sprintf("%s -> level %d: crash during that Open before %s %s", where, level+1, inst.Event.Kind, relTo(filepath.Dir(img), inst.Event.Path))
+		var deeper []*kvh.Instant
+		db, dump, f := x.openArmed(img, reader, level+1, &deeper)
+		if f != nil {
+			dropAll(deeper)
+			f.Msg = w + ": " + f.Msg
+			return f, []int{inst.Event.Seq}
+		}
+		if kvh.StateDigest(dump) != want {
+			_ = db.Close()
+			dropAll(deeper)
+			return &kvh.Fail{Sig: "crash-during-recovery-changes-state", Msg: fmt.Sprintf("%s: recovered %s, the uninterrupted recovery of the same image gave %s", w, kvh.DescribeDump(dump), kvh.DescribeDump(wantDump))}, []int{inst.Event.Seq}
+		}
+		if len(deeper) > 0 {
+			if f, path := x.verifyNested(deeper, reader, want, wantDump, level+1, w); f != nil {
+				_ = db.Close()
+				return f, append([]int{inst.Event.Seq}, path...)
+			}
+		}
+		if err := db.Close(); err != nil {
+			return &kvh.Fail{Sig: "recovered-close-error", Msg: w + ": " + err.Error()}, []int{inst.Event.Seq}
+		}
+		// and once more: re-running the (now completed) recovery is harmless
+		db2, dump2, f := kvh.OpenImage(img, reader)
+		if f != nil {
+			f.Sig = "second-" + f.Sig
+			f.Msg = w + ": second Open: " + f.Msg
+			return f, []int{inst.Event.Seq}
+		}
+		_ = db2.Close()
+		if kvh.StateDigest(dump2) != want {
+			return &kvh.Fail{Sig: "recovery-not-idempotent", Msg: fmt.Sprintf("%s: the second Open shows %s, want %s", w, kvh.DescribeDump(dump2), kvh.DescribeDump(wantDump))}, []int{inst.Event.Seq}
+		}
+		gIO.Forget(img)
+		x.cs.labels[fmt.Sprintf("level-%d-image-before-%s", level+1, inst.Event.Kind)]++
+		x.cs.nested++
+		x.cs.hashes = append(x.cs.hashes, kvh.Hash64([]byte(fmt.Sprintf("%d|nested|%s|%d|%d", x.caseHash(), where, level, inst.Event.Seq))))
+	}
+	return nil, nil
 }
